@@ -70,10 +70,11 @@ out.append(rd('design/10_tiers.md'))
 # ---- section 11
 s11 = ['## 11. Validating the machinery: seeded changes and mutation trials\n',
        'Seeded changes were written by fresh sub-agents that were given only the text of one property and a scratch worktree of /repo (nothing from /verif). Each compiles, passes the pinned suite, and breaks the property only under specific conditions; each was confirmed by `tools/confirm_mutant.sh` (suite passes with the patch, demonstration fails with it and passes without) and then tried against the check with `VERIF_REPO=<worktree> bin/vcheck Cxx`. Where a check missed a change it was strengthened (generically, not for the one change) and re-run; both results are recorded. The authors of each property\'s check additionally tried their own list of mutations (section 8, "mutations").\n',
-       '| id | change | needs | result | caught by |', '|---|---|---|---|---|']
+       'Round 1 (60 changes, three per property) was followed by a second round (three more per property, written by fresh sub-agents that were told what round 1 had done and asked for different, subtler slips). The second round exposed many more blind spots of the generators than the first -- unusual but legal features (quoted units, dice with units, superscript exponents, base-prefixed dice, raw strings), multi-step histories on one context (caches, custom units defined late), sizes beyond a threshold (1024-byte strings, 16-term chains, 32 groups, integers of several digit groups), extreme values of a host input (random source 0 / u32::MAX, exponents around 2^32, non-UTF-8 paths). Every miss was answered by a generic extension of the generator or by new model coverage (never by special-casing the seeded input), after which the change was re-tried; the table gives the first-trial result and the follow-up. The authors of the seeded changes also reported defects of the unchanged tree they noticed on the way (comma-style unit definitions, the superscript exponent swallowing the next character); these were reproduced, repaired by `fix:` commits and are listed in section 9.\n',
+       '| id | round | change | needs | result | caught by |', '|---|---|---|---|---|---|']
 for m in seeded:
     v = m.get('verified_by_integrator', {})
-    s11.append('| %s | %s | %s | %s | %s |' % (m['_id'], str(m.get('summary', '')).replace('|', '/')[:260], str(m.get('needs', '')).replace('|', '/')[:200], str(v.get('result', '')).replace('|', '/')[:260], str(v.get('how', '')).replace('|', '/')[:260]))
+    s11.append('| %s | %s | %s | %s | %s | %s |' % (m['_id'], m.get('round', 1), str(m.get('summary', '')).replace('|', '/')[:260], str(m.get('needs', '')).replace('|', '/')[:200], str(v.get('result', '')).replace('|', '/')[:260], str(v.get('how', '')).replace('|', '/')[:260]))
 out.append('\n'.join(s11) + '\n\n---------------------------------------------------------------------------\n\n')
 out.append(rd('design/12_tooling.md'))
 out.append('---------------------------------------------------------------------------\n\n# Appendix R0. Round-0 prototype notes and proof plans (historical)\n\n')
